@@ -1,4 +1,5 @@
 import ScnrVerif.Proofs.World
+import ScnrVerif.Proofs.Lock
 /-!
 # C14 — building and scanning are thread-safe (partial: bookkeeping only)
 
@@ -34,5 +35,56 @@ def exOps : List Op :=
 example : outputsOf (fun s => s < 10) exOps
     (World.run (fun c => some c) (fun _ => [⟨[], []⟩]) exFind World.empty exOps).2 =
     [.built 1, .none, .tok (some ⟨1, 0, 1⟩), .tok (some ⟨1, 1, 2⟩)] := by decide
+
+
+/-! ## Lock granularity (`Model/Lock.lean`)
+
+`build` = block on `SCANNER_CACHE.write()`, run `ScannerCache::get` under the exclusive guard, drop
+the guard. For every reachable state of the small-step model (any number of threads, any schedule): -/
+
+/-- at most one thread is inside the critical section, and it is the one recorded as lock holder -/
+theorem lock_mutual_exclusion {compile cfgOf findOf} (s : LState) (hr : Reachable compile cfgOf findOf s) :
+    (∀ t, (s.phaseOf t).critical = true ↔ s.lock = some t) ∧
+    (∀ t u, (s.phaseOf t).critical = true → (s.phaseOf u).critical = true → t = u) ∧
+    (s.lock = none → ∀ t, (s.phaseOf t).critical = false) :=
+  Scnr.lock_mutual_exclusion compile cfgOf findOf s hr
+
+/-- linearizability: the shared world and all outputs are those of the *atomic* model run on the calls
+    in the order of their linearization points, which lie between invocation and return of each call
+    (per thread: observed ⊑ linearized ⊑ program, differing by at most the call in flight) -/
+theorem lock_refines_atomic {compile cfgOf findOf} (s : LState) (hr : Reachable compile cfgOf findOf s) :
+    s.world = (World.run compile cfgOf findOf World.empty s.linOps).1 ∧
+    s.linOuts = (World.run compile cfgOf findOf World.empty s.linOps).2 ∧
+    (∀ t, s.program t = (s.linearized t).map (·.1) ++ (s.phaseOf t).pendingCall) ∧
+    (∀ t, s.linearized t = s.observed t ++ (s.phaseOf t).pendingRet) ∧
+    (∀ e ∈ s.trace, e ∈ s.lin) :=
+  Scnr.lock_refines_atomic compile cfgOf findOf s hr
+
+/-- no deadlock: the holder can always continue; with the lock free every waiting thread can acquire -/
+theorem lock_deadlock_free {compile cfgOf findOf} (s : LState) (hr : Reachable compile cfgOf findOf s) :
+    (∀ h, s.lock = some h → s.enabled (.body h) = true ∨ s.enabled (.release h) = true) ∧
+    (s.lock = none → ∀ t, s.phaseOf t ≠ .idle → s.enabled (.acquire t) = true) ∧
+    ((∃ t, s.phaseOf t ≠ .idle) → ∃ e, e.isCall = false ∧ s.enabled e = true) :=
+  Scnr.lock_deadlock_free compile cfgOf findOf s hr
+
+/-- progress: at most three lock events per pending call bring every thread back to idle -/
+theorem lock_progress {compile cfgOf findOf} (s : LState) (hr : Reachable compile cfgOf findOf s) :
+    ∃ evs : List LEvent, evs.length ≤ 3 * s.nonIdle ∧ s.legal compile cfgOf findOf evs = true ∧
+      (∀ e ∈ evs, e.isCall = false) ∧
+      ∀ t, (s.runEvents compile cfgOf findOf evs).phaseOf t = .idle :=
+  Scnr.lock_progress compile cfgOf findOf s hr
+
+/-- every thread observes exactly the outputs of its own program run alone, in every lock-level
+    execution (threads use their own scanner / iterator slots and share the cache) -/
+theorem lock_thread_view {compile cfgOf findOf} (s : LState) (hr : Reachable compile cfgOf findOf s) (t : Nat)
+    (own : Nat → Bool)
+    (hown : ∀ u op, (u, op) ∈ s.calls →
+      if u = t then op.within own = true else op.within (fun x => !own x) = true) :
+    (s.observed t).map (·.2) =
+      (World.run compile cfgOf findOf World.empty ((s.observed t).map (·.1))).2 ∧
+    s.program t = (s.observed t).map (·.1) ++ (s.phaseOf t).pendingOps ∧
+    (s.phaseOf t = .idle →
+      (s.observed t).map (·.2) = (World.run compile cfgOf findOf World.empty (s.program t)).2) :=
+  Scnr.lock_thread_view compile cfgOf findOf s hr t own hown
 
 end Scnr.C14
